@@ -261,3 +261,165 @@ func propInvalidator(c *Case) {
 		}
 	})
 }
+
+const c17bRule = "REAL clock (callbacks that take time cannot be modelled in a bubble: callers queue on the Invalidator's mutex, which is not a durable block): SkipInterval 30ms, 2 callbacks whose duration depends on the run (first accepted run 0/2/3 intervals long, later runs 0 or half an interval), 3-6 callers arriving at generated offsets around those runs (queued behind a running invalidation, right after it, one interval later); " +
+	"oracle = a SOUND witness from monotonic timestamps taken by the harness only: an accepted call k was accepted somewhere in [max(invoke_k, end of run k-1), start of its first callback]; a violation is reported only if start(run k+1) - max(invoke_k, end(run k-1)) < SkipInterval (no assignment of acceptance instants can satisfy spacing and non-overlap), or two callbacks overlap, or a run is incomplete/out of order, or a rejected call ran a callback / returned another error; scheduling delays can only hide a violation, never fake one; " +
+	"non-trivial = a caller was queued behind a running invalidation"
+
+// TestC17RealTime covers invalidations whose callbacks take time, with queued callers.
+func TestC17RealTime(t *testing.T) {
+	runCheck(t, "C17", "C17RealTime", c17bRule, func(c *Case) {
+		const S = 30 * time.Millisecond
+
+		firstRun := []time.Duration{3 * S, 0, 2 * S}[c.Pick("first-run", 3)]
+		laterRun := []time.Duration{0, S / 2}[c.Pick("later-run", 2)]
+		ncallers := c.Int("callers", 3, 6)
+		menu := []time.Duration{0, S / 2, 3 * S / 2, firstRun + 3*time.Millisecond, firstRun + S/2, firstRun + S + 5*time.Millisecond, firstRun + 2*S}
+		offsets := make([]time.Duration, ncallers)
+
+		for i := range offsets {
+			offsets[i] = menu[c.Pick("offset", len(menu))]
+			if i > 0 && offsets[i] > 0 && offsets[i] < firstRun {
+				c.Class("queued-behind-running-invalidation")
+				c.NonTrivial()
+			}
+		}
+
+		offsets[0] = 0
+		c.Tracef("SkipInterval=%v first run %v later runs %v caller offsets %v", S, firstRun, laterRun, offsets)
+
+		var (
+			mu       sync.Mutex
+			runs     []*rtRun
+			cur      *rtRun
+			inflight int32
+			overlap  int32
+			nruns    int32
+		)
+
+		inv := &cache.Invalidator{SkipInterval: S}
+		curCaller := map[int64]int{}
+
+		for j := 0; j < 2; j++ {
+			j := j
+			inv.Callbacks = append(inv.Callbacks, func(context.Context) {
+				if atomic.AddInt32(&inflight, 1) > 1 {
+					atomic.StoreInt32(&overlap, 1)
+				}
+
+				now := time.Now()
+
+				mu.Lock()
+				who := curCaller[curGoID()]
+
+				if j == 0 {
+					cur = &rtRun{caller: who, start: now}
+					runs = append(runs, cur)
+				}
+
+				r := cur
+				r.order = append(r.order, j)
+				r.callers = append(r.callers, who)
+				mu.Unlock()
+
+				d := laterRun
+				if atomic.LoadInt32(&nruns) == 0 {
+					d = firstRun
+				}
+
+				if d > 0 {
+					time.Sleep(d / 2)
+				}
+
+				if j == 1 {
+					atomic.AddInt32(&nruns, 1)
+
+					mu.Lock()
+					r.end = time.Now()
+					mu.Unlock()
+				}
+
+				atomic.AddInt32(&inflight, -1)
+			})
+		}
+
+		type res struct {
+			invoke time.Time
+			err    error
+		}
+
+		results := make([]res, ncallers)
+		t0 := time.Now()
+
+		var wg sync.WaitGroup
+
+		for i := 0; i < ncallers; i++ {
+			i := i
+
+			wg.Add(1)
+
+			go func() {
+				defer wg.Done()
+
+				mu.Lock()
+				curCaller[curGoID()] = i
+				mu.Unlock()
+
+				time.Sleep(time.Until(t0.Add(offsets[i])))
+
+				results[i].invoke = time.Now()
+				results[i].err = inv.Invalidate(context.Background())
+			}()
+		}
+
+		wg.Wait()
+
+		c.Assert(atomic.LoadInt32(&overlap) == 0, "callbacks-overlap", "two callbacks were in flight at the same time")
+
+		accepted := map[int]bool{}
+
+		for i, r := range results {
+			c.Tracef("caller %d invoked at +%v: %v", i, r.invoke.Sub(t0), r.err)
+
+			if r.err == nil {
+				accepted[i] = true
+			} else {
+				c.Assert(errors.Is(r.err, cache.ErrAlreadyInvalidated), "rejected-error", "caller %d got %v, want nil or ErrAlreadyInvalidated", i, r.err)
+			}
+		}
+
+		ran := map[int]int{}
+
+		for k, r := range runs {
+			c.Tracef("run %d by caller %d: [+%v, +%v] order %v", k, r.caller, r.start.Sub(t0), r.end.Sub(t0), r.order)
+			c.Assert(len(r.order) == 2 && r.order[0] == 0 && r.order[1] == 1 && r.callers[0] == r.callers[1], "run-order", "run %d executed callbacks %v by callers %v, want [0 1] by one caller", k, r.order, r.callers)
+			ran[r.caller]++
+		}
+
+		for i := range results {
+			want := 0
+			if accepted[i] {
+				want = 1
+			}
+
+			c.Assert(ran[i] == want, "run-count", "caller %d (accepted=%v) ran the callbacks %d times", i, accepted[i], ran[i])
+		}
+
+		for k := 0; k+1 < len(runs); k++ {
+			low := results[runs[k].caller].invoke
+			if k > 0 && runs[k-1].end.After(low) {
+				low = runs[k-1].end
+			}
+
+			gap := runs[k+1].start.Sub(low)
+			c.Assert(gap >= S, "accepted-too-early", "run %d started only %v after the earliest instant at which run %d can have been accepted (its invocation / the end of the run before it): accepted calls closer than SkipInterval %v", k+1, gap, k, S)
+		}
+	})
+}
+
+type rtRun struct {
+	caller     int
+	start, end time.Time
+	order      []int
+	callers    []int
+}
